@@ -3,9 +3,9 @@
 // mathematical `int` in [-2^255, 2^255). Read off soroban-sdk-25.0.2/src/num.rs and
 // soroban-env-host-25.0.1/src/host.rs (`impl_bignum_host_fns!(i256_mul, checked_mul, ..)` etc.): every arithmetic
 // host function is the `checked_*` operation of a 256-bit integer and TRAPS (= the call does not return) when
-// that yields None. Hence the partial-correctness contracts below: "returns only when the mathematical result
-// fits"; `div` truncates toward zero and traps on a zero divisor and on MIN / -1; `rem_euclid` is the Euclidean
-// remainder (0 <= r < |b|) and traps on a zero divisor and on MIN rem -1 (as `checked_rem_euclid` does).
+// that yields None. This fragment holds the type, comparisons and conversions; the arithmetic comes from ONE of
+// `i256_ops` (partial correctness: a call returns only when the mathematical result fits) or `i256_ops_strict`
+// (the trap conditions are preconditions that Verus must discharge at every call site).
 pub open spec fn i256_hi() -> int {
     0x8000_0000_0000_0000_0000_0000_0000_0000int * 0x1_0000_0000_0000_0000_0000_0000_0000_0000int   // 2^127 * 2^128 = 2^255
 }
@@ -67,33 +67,6 @@ impl I256 {
         ensures
             r.is_some() <==> (i128::MIN as int <= self@ <= i128::MAX as int),
             r.is_some() ==> r.unwrap() as int == self@,
-    { unimplemented!() }
-
-    #[verifier::external_body]
-    pub fn add(&self, o: &I256) -> (r: I256)
-        ensures i256_fits(self@ + o@), r@ == self@ + o@,
-    { unimplemented!() }
-
-    #[verifier::external_body]
-    pub fn sub(&self, o: &I256) -> (r: I256)
-        ensures i256_fits(self@ - o@), r@ == self@ - o@,
-    { unimplemented!() }
-
-    #[verifier::external_body]
-    pub fn mul(&self, o: &I256) -> (r: I256)
-        ensures i256_fits(self@ * o@), r@ == self@ * o@,
-    { unimplemented!() }
-
-    /// truncating division (Rust `/` semantics on a 256-bit integer)
-    #[verifier::external_body]
-    pub fn div(&self, o: &I256) -> (r: I256)
-        ensures o@ != 0, i256_fits(rust_div(self@, o@)), r@ == rust_div(self@, o@),
-    { unimplemented!() }
-
-    /// Euclidean remainder: 0 <= r < |o|
-    #[verifier::external_body]
-    pub fn rem_euclid(&self, o: &I256) -> (r: I256)
-        ensures o@ != 0, !(self@ == -i256_hi() && o@ == -1), r@ == self@ % o@,
     { unimplemented!() }
 }
 
